@@ -76,7 +76,14 @@ def model_to_bytes(I_, st, call):
     """Packet::to_bytes as verified by C04: Ok(vector of some length) or Err(MessageError)"""
     s2 = st.copy()
     recv = call.args[0].place if call.args and isinstance(call.args[0], RefV) else None
-    n = I_.fresh(st, "len(encoded)", 4, (1 << 63) - 1, ("len", "encoded", recv))
+    # was the payload out of the message when it was measured?  (a whole-message encoding is refused above
+    # Packet::MAX_SIZE, so a size taken that way fails for large bodies)
+    bare = False
+    if recv is not None:
+        pi = idx(I_.prog, "packet::Packet", "payload")
+        pv = I_.read(st, recv.extend(("f", pi))) if pi is not None else None
+        bare = isinstance(pv, VecV) and st.entails_eq(pv.len, Aff.const(0))
+    n = I_.fresh(st, "len(encoded)", 4, (1 << 63) - 1, ("len", "encoded", recv, "bare" if bare else "with-payload"))
     dt = call.dest_ty
     ok = EnumV("core::result::Result", {0: StructV([VecV(Aff.sym(n), None, ("encoded",))])}, dt)
     er = EnumV("core::result::Result", {1: StructV([I_.mat(s2, dt[2][1] if dt and len(dt[2]) > 1 else None, "err")])}, dt)
